@@ -12,6 +12,7 @@ import Driver.Listing
 import Driver.Tf
 import Driver.Dual
 import Driver.Display
+import Driver.Kerl
 open Btcdeb
 namespace Driver
 
@@ -23,6 +24,8 @@ def extraCmds : List (String × (Bool → List String → String)) :=
     ("SPENDR", fun spec a => if spec then cmdSpendSpec a else cmdSpendModelR true a),
     ("LISTING", cmdListing), ("DUAL", cmdDual),
     ("TF", cmdTf), ("INLINE", cmdInline),
-    ("DISPLAY", cmdDisplay) ]
+    ("DISPLAY", cmdDisplay),
+    ("KARGV", cmdKargv), ("KCOLLAPSE", cmdKcollapse), ("KCITE", cmdKcite), ("KMORE", cmdKmore), ("KESC", cmdKesc), ("KUNESC", cmdKunesc),
+    ("KSTRIP", cmdKstrip), ("KDUPCMD", cmdKdupcmd), ("KEXEC", cmdKexec), ("KRUN", cmdKrun), ("KHIST", cmdKhist) ]
 
 end Driver
